@@ -201,6 +201,8 @@ func escAttr(sb *strings.Builder, s string, q byte, o *XMLOpts) {
 			sb.WriteString("&lt;")
 		case c == '&':
 			sb.WriteString("&amp;")
+		case c == '>':
+			sb.WriteString("&gt;")
 		case c == '\t' || c == '\n' || c == '\r':
 			fmt.Fprintf(sb, "&#%d;", c)
 		case byte(c) == q && c < 128:
